@@ -194,7 +194,9 @@ func (s *selectForUpdateExecutor) doExecContext(ctx context.Context, f exec.Call
 	}
 
 	if lockKey == "" {
-		return nil, nil
+		// buildLockKey gives up with an empty key when a primary-key value cannot be scanned: that is a
+		// failure of this statement, not a successful statement without a result
+		return nil, fmt.Errorf("build lock key of table %s for select for update failed", s.tableName)
 	}
 
 	// execute business SQL, try to get local lock
